@@ -67,6 +67,8 @@ pub enum Mutation {
     Cell { row: u16, col: u16 },
     /// replace one cell by one of NULL / '' / 'NULL' / '(empty)' (text columns; NULL otherwise)
     CellSpecial { row: u16, col: u16, which: u8 },
+    /// near miss derived from the cell itself: added blank, changed case, dropped character, number off by one, …
+    CellTweak { row: u16, col: u16, kind: u8 },
     DropRow { row: u16 },
     DupRow { row: u16 },
     AppendAltRow,
@@ -184,6 +186,7 @@ fn mutation() -> BoxedStrategy<Mutation> {
         3 => Just(Mutation::None),
         4 => (any::<u16>(), any::<u16>()).prop_map(|(row, col)| Mutation::Cell { row, col }),
         4 => (any::<u16>(), any::<u16>(), 0u8..4).prop_map(|(row, col, which)| Mutation::CellSpecial { row, col, which }),
+        5 => (any::<u16>(), any::<u16>(), 0u8..6).prop_map(|(row, col, kind)| Mutation::CellTweak { row, col, kind }),
         1 => any::<u16>().prop_map(|row| Mutation::DropRow { row }),
         1 => any::<u16>().prop_map(|row| Mutation::DupRow { row }),
         1 => Just(Mutation::AppendAltRow),
@@ -390,6 +393,15 @@ fn mutate(c: &ResCase) -> (Table, &'static str) {
             };
             (t, "cell-special")
         }
+        Mutation::CellTweak { row, col, kind } => {
+            if nrows == 0 {
+                t.rows.push(c.alt[0].clone());
+                return (t, "append-row");
+            }
+            let (r, k) = (idx(*row, nrows), idx(*col, ncols));
+            t.rows[r][k] = tweak(&t.rows[r][k], c.tys[k], *kind);
+            (t, "cell-tweak")
+        }
         Mutation::DropRow { row } => {
             if nrows == 0 {
                 t.rows.push(c.alt[0].clone());
@@ -437,6 +449,94 @@ fn mutate(c: &ResCase) -> (Table, &'static str) {
     }
 }
 
+/// a value close to `v` but different from it
+fn tweak(v: &CellV, ty: Ty, kind: u8) -> CellV {
+    match v {
+        CellV::Null => match ty {
+            Ty::Int => CellV::Int(0),
+            Ty::Float => CellV::Float("0".into()),
+            Ty::Bool => CellV::Bool(false),
+            Ty::Date => CellV::Date(0),
+            Ty::Text => CellV::Text(if kind % 2 == 0 { "null".into() } else { " ".into() }),
+        },
+        CellV::Int(i) => CellV::Int(match kind % 3 {
+            0 => i.wrapping_add(1),
+            1 => {
+                if *i == 0 || *i == i64::MIN {
+                    1
+                } else {
+                    -i
+                }
+            }
+            _ => {
+                if *i == 0 {
+                    10
+                } else {
+                    i.wrapping_mul(10)
+                }
+            }
+        }),
+        CellV::Float(s) => {
+            let f: f64 = s.parse().unwrap_or(0.0);
+            let g = match kind % 3 {
+                0 => f + 0.5,
+                1 => {
+                    if f == 0.0 {
+                        1.0
+                    } else {
+                        -f
+                    }
+                }
+                _ => {
+                    if f == 0.0 {
+                        0.25
+                    } else {
+                        f * 2.0
+                    }
+                }
+            };
+            let g = if !g.is_finite() || g == f { 1.0 + f.abs().min(1e10) } else { g };
+            CellV::Float(format!("{:e}", if g == 0.0 { 0.0 } else { g }))
+        }
+        CellV::Bool(b) => CellV::Bool(!b),
+        CellV::Date(d) => CellV::Date(if *d >= DATE_MAX { d - 1 } else if kind % 2 == 0 { d + 1 } else if *d > DATE_MIN { d - 1 } else { d + 1 }),
+        CellV::Text(s) => {
+            let t = match kind % 6 {
+                0 => format!("{s} "),
+                1 => format!(" {s}"),
+                2 => {
+                    let mut done = false;
+                    let t: String = s
+                        .chars()
+                        .map(|ch| {
+                            if !done && ch.is_ascii_alphabetic() {
+                                done = true;
+                                if ch.is_ascii_lowercase() { ch.to_ascii_uppercase() } else { ch.to_ascii_lowercase() }
+                            } else {
+                                ch
+                            }
+                        })
+                        .collect();
+                    if done { t } else { format!("{s}x") }
+                }
+                3 => format!("{s}x"),
+                4 => {
+                    let mut t = s.clone();
+                    if t.pop().is_none() {
+                        t.push('x');
+                    }
+                    t
+                }
+                _ => {
+                    let tr = s.trim().to_string();
+                    if tr != *s { tr } else { format!("{s}\t") }
+                }
+            };
+            CellV::Text(t)
+        }
+    }
+}
+
 fn cells_equal(a: &CellV, b: &CellV) -> bool {
     match (a, b) {
         (CellV::Float(x), CellV::Float(y)) => x.parse::<f64>().ok().map(f64::to_bits) == y.parse::<f64>().ok().map(f64::to_bits),
@@ -453,11 +553,17 @@ fn rule_text(c: &CellV) -> Option<String> {
     }
 }
 
-/// Is a differing (persisted, actual) cell pair one of the documented equivalences (or textually identical)?
-/// expected `NULL` ~ actual empty; expected `(empty)` ~ actual empty or NULL; NULL and the text `NULL` render alike.
+/// Is a differing (persisted, actual) cell pair one of the documented NULL/empty-cell equivalences (or textually
+/// identical)? Rules of `compare_results` (pinned by its unit tests `assert_accepts_*`): expected `NULL` ~ actual
+/// empty; expected `(empty)` ~ actual empty or NULL; NULL and the text `NULL` render alike. A persisted empty string
+/// is an empty cell of the pipe-delimited result file, and an empty cell of a result file means NULL (that is why the
+/// `(empty)` marker exists), so a persisted '' may stand for the expected text `` or `NULL`.
 fn tolerated(persisted: &CellV, actual: &CellV) -> bool {
     match (rule_text(persisted), rule_text(actual)) {
-        (Some(e), Some(a)) => e == a || (e == "NULL" && a.is_empty()) || (e == "(empty)" && (a.is_empty() || a == "NULL")),
+        (Some(e), Some(a)) => {
+            let rule = |e: &str| e == a || (e == "NULL" && a.is_empty()) || (e == "(empty)" && (a.is_empty() || a == "NULL"));
+            rule(&e) || (e.is_empty() && rule("NULL"))
+        }
         _ => false,
     }
 }
